@@ -473,23 +473,7 @@ def rules(ctx):
             ctx.inst('M6', (f.unit, fname), 'static locals of %s' % fname, False, "static local %s keeps state across calls" % statics)
 
     # ---------------------------------------------------------------- M8
-    nmem = 0
-    for f in funcs:
-        for c in f.calls:
-            if c['callee'] in ('memcpy', 'memmove', 'memset'):
-                nmem += 1
-                size = nsp(c['argtxt'][-1])
-                dst = re.sub(r'^\(?&', '', nsp(c['argtxt'][0]))
-                dbase = re.sub(r'[\[\+].*', '', dst)
-                decl = f.ptype(dbase) or ''
-                pt = nsp(re.sub(r'\*\s*$', '', decl))
-                m = re.search(r'sizeof\(([^)]+)\)', size)
-                ok = bool(m) and nsp(m.group(1)) == pt
-                ctx.inst('M8', (f.unit, f.name), '%s(%s)' % (c['callee'], ', '.join(c['argtxt'])), ok,
-                         "size carries sizeof(%s)" % pt if ok else
-                         "%s size `%s` is not a count times sizeof(%s): only part of the elements is copied / the copy overruns"
-                         % (c['callee'], size, pt))
-    ctx.inst('M8', ('qubovert/sim', ''), 'block copies', True, "%d memcpy/memset calls checked" % nmem, nontrivial=False)
+    block_copy_rules(ctx, 'M8', funcs)
 
     # ---------------------------------------------------------------- M9
     def list_sizes(f):
@@ -554,7 +538,28 @@ def rules(ctx):
 
 
 # =====================================================================
-def init_rules(ctx, C, X, funcs):
+def block_copy_rules(ctx, rid, funcs):
+    """M8: sizes of memcpy / memmove / memset are count * sizeof(pointee)."""
+    nmem = 0
+    for f in funcs:
+        for c in f.calls:
+            if c['callee'] in ('memcpy', 'memmove', 'memset'):
+                nmem += 1
+                size = nsp(c['argtxt'][-1])
+                dst = re.sub(r'^\(?&', '', nsp(c['argtxt'][0]))
+                dbase = re.sub(r'[\[\+].*', '', dst)
+                decl = f.ptype(dbase) or ''
+                pt = nsp(re.sub(r'\*\s*$', '', decl))
+                m = re.search(r'sizeof\(([^)]+)\)', size)
+                ok = bool(m) and nsp(m.group(1)) == pt
+                ctx.inst(rid, (f.unit, f.name), '%s(%s)' % (c['callee'], ', '.join(c['argtxt'])), ok,
+                         "size carries sizeof(%s)" % pt if ok else
+                         "%s size `%s` is not a count times sizeof(%s): only part of the elements is copied / the copy overruns"
+                         % (c['callee'], size, pt))
+    ctx.inst(rid, ('qubovert/sim', ''), 'block copies', True, "%d memcpy/memset calls checked" % nmem, nontrivial=False)
+
+
+def init_rules(ctx, C, X, funcs, rid='M5'):
     """M5: fully written before read."""
     summ = {}
     early = {}
@@ -661,7 +666,7 @@ def init_rules(ctx, C, X, funcs):
             seen.add(v)
             inited, rb = scan(f, v, 0)
             ok = not rb
-            ctx.inst('M5', (f.unit, f.name), 'initialisation of %s' % v, ok,
+            ctx.inst(rid, (f.unit, f.name), 'initialisation of %s' % v, ok,
                      "fully written before every read%s" % (' (conditionally under `%s`, read only under it)' % inited[1]
                                                             if inited and inited[0] == 'cond' else '') if ok else
                      "`%s`: %s at line %s before it has been fully written: uninitialised heap memory is used" % (v, rb[0][1], rb[0][0]))
@@ -682,14 +687,14 @@ def init_rules(ctx, C, X, funcs):
                             [c['line'] for c in f.calls if tv in [nsp(x) for x in c['argtxt']] and c['callee'] != 'free'] + [10 ** 9])
             if ok:
                 ok = full[0]['line'] <= first_use
-            ctx.inst('M5', (f.unit, f.name), 'rows of %s allocated' % tv, ok,
+            ctx.inst(rid, (f.unit, f.name), 'rows of %s allocated' % tv, ok,
                      "every row is allocated in a loop over the whole table before any row is accessed" if ok else
                      "rows of `%s` are not all allocated (loop over the whole extent %s) before rows are dereferenced: a row "
                      "that was never (re)allocated is a NULL / wild pointer" % (tv, E))
             z = [s_ for s_ in f.subs if s_['write'] and re.fullmatch(r'%s\[\w+\]' % tv, nsp(s_['base'])) and nsp(s_['index']) == '0'
                  and s_['loops'] and nsp(s_['loops'][-1]['hi']) in E and not s_['guards']]
             zc = bool(full) and all(r['fn'] == 'calloc' for r in full)
-            ctx.inst('M5', (f.unit, f.name), 'count cell of every row of %s initialised' % tv, bool(z) or zc,
+            ctx.inst(rid, (f.unit, f.name), 'count cell of every row of %s initialised' % tv, bool(z) or zc,
                      "cell 0 (the count) of every row is written in the allocation loop" if z else
                      "every row comes zero-filled from calloc" if zc else
                      "the count cell [0] of the rows of `%s` is not initialised for every row" % tv)
@@ -726,3 +731,13 @@ def thorough_extra(ctx):
                                               'overflow in')) and 'allocation size' not in low and '/sim/' in line:
                         gating.append(dict(text='generic analyzer: ' + line.strip()[-300:]))
     return dict(summary=dict(tools=tools, reports=len(reports), gating=len(gating), samples=reports[:8]), gating=gating)
+
+
+def buffers_initialised(ctx, rid):
+    """Premise for the result properties: every buffer the wrappers and kernels read (the state rows handed to the
+    kernels first of all) is fully written before - M5 and M8 under the caller's rule id."""
+    C = ctx.cprog
+    funcs = [f for f in C.funcs.values() if f.unit in KERNEL_UNITS]
+    X = Extents(C)
+    init_rules(ctx, C, X, funcs, rid)
+    block_copy_rules(ctx, rid, funcs)
